@@ -241,7 +241,7 @@ def finish (c : Case) : String := Id.run do
       | some (s0, c0, steps, cx) =>
         (pathScore N em T s0 c0 steps cx == opt && opt.isSome, segments insts c.wordStr c.arcs (s0 :: steps.map (fun (e : Nat × Int) => e.1)))
     let showO : Option Int → String := fun o => match o with | none => "none" | some v => toString v
-    return s!"case {c.id} opt {showO opt} optef {showO optEf} T {T} states {L.n} edges {N.edges.length} consts {c.constsOK} data {dataOK} " ++
+    return s!"case {c.id} opt {showO opt} optef {showO optEf} empty {showO (best ((hops M M.start M.final).map some))} T {T} states {L.n} edges {N.edges.length} consts {c.constsOK} data {dataOK} " ++
       s!"fillerflags {!c.fillerMismatch} labels {labelsOK M L} closed {nullClosed M} monotone {monotone} skipcons {skipCons} agree {r.opt == opt} " ++
       s!"spread {r.spread} minval {showO r.minval} beam {c.beam} pathok {pathok} align {segs}"
 
